@@ -637,6 +637,81 @@ func c17RacingDeploys(sameInstant bool) *Scenario {
 	return sc
 }
 
+// c17OverlappingRolloutDeploys: two rollout deploys of one service overlap - the second starts while the first is
+// still waiting for its target, the first finishes first. Both return within their bounds; once both have returned
+// exactly one of the two targets is in the rollout slot and keeps being probed, the replaced one receives no probe.
+func c17OverlappingRolloutDeploys(gap time.Duration) *Scenario {
+	sc := &Scenario{Name: fmt.Sprintf("C17 overlapping rollout deploys of one service, gap=%v", gap), Horizon: 90 * time.Second, Bounds: &Bounds{D: 2, S: 0}}
+	var cmds [2]*CmdObs
+	sc.Run = func(w *World) {
+		cmds = [2]*CmdObs{}
+		w.AddTarget("oa:80")
+		w.AddTarget("pa:80", p500(), pOK())
+		w.AddTarget("pb:80", p500(), p500(), pOK())
+		if r := w.Deploy(deployArgs("s1", []string{"oa:80"}, []string{"a.example.com"}, nil)); r.Err != nil {
+			w.Note("setup: %v", r.Err)
+			return
+		}
+		time.Sleep(vI/2 + 50*time.Millisecond)
+		var wg vsync.WaitGroup
+		wg.Add(2)
+		w.S.SetWindow(true)
+		for i, tn := range []string{"pa:80", "pb:80"} {
+			i, tn := i, tn
+			vsched.GoTagged("cmd", func() {
+				defer wg.Done()
+				cmds[i] = w.RolloutDeploy("s1", []string{tn})
+			})
+			time.Sleep(gap)
+		}
+		wg.Wait()
+		w.S.SetWindow(false)
+		w.Net.Mark("settle-start", "")
+		time.Sleep(4*vI + 100*time.Millisecond)
+	}
+	sc.Check = func(w *World) []Violation {
+		var vs []Violation
+		for _, n := range w.Notes {
+			vs = append(vs, Violation{"C17", "setup", n})
+		}
+		if len(vs) > 0 || cmds[0] == nil || cmds[1] == nil || !cmds[0].Done || !cmds[1].Done {
+			return vs
+		}
+		last := cmds[0].EndSeq
+		for i, c := range cmds {
+			if c.Err != nil {
+				vs = append(vs, Violation{"C17", "unexpected-result", fmt.Sprintf("overlapping rollout deploy %d: %v", i, c.Err)})
+			}
+			if c.End > c.Start+vT+vD {
+				vs = append(vs, Violation{"C17", "rollout exceeded-timeout-bound", fmt.Sprintf("overlapping rollout deploy %d took %v", i, c.End-c.Start)})
+			}
+			if c.EndSeq > last {
+				last = c.EndSeq
+			}
+		}
+		if len(vs) > 0 {
+			return vs
+		}
+		cnt := map[string]int{}
+		for _, e := range w.Net.Events() {
+			if e.Seq > last && (e.Kind == "probe" || e.Kind == "probe-refused") {
+				cnt[e.Target]++
+			}
+		}
+		if cnt["pa:80"] > 0 && cnt["pb:80"] > 0 {
+			vs = append(vs, Violation{"C17", "probes-after-return rollout overlapping", fmt.Sprintf("both rollout deploys returned successfully, one target replaced the other, yet both are still probed in the settle window: %v", cnt)})
+		}
+		if cnt["pa:80"] < 3 && cnt["pb:80"] < 3 {
+			vs = append(vs, Violation{"C17", "probing-stopped-for-live-target", fmt.Sprintf("neither rollout target is probed after two successful rollout deploys: %v", cnt)})
+		}
+		if cnt["oa:80"] < 3 {
+			vs = append(vs, Violation{"C17", "probing-stopped-for-live-target", fmt.Sprintf("oa:80 (active) got only %d probes in the settle window", cnt["oa:80"])})
+		}
+		return vs
+	}
+	return sc
+}
+
 // c17RemoveRacingWith: `remove s1` races with a deploy / rollout deploy of s1 whose new target is healthy at once.
 // Whatever order the two take effect in, once both have returned every target that is still probed belongs to a
 // service the proxy lists, and every target of a listed service is probed.
@@ -715,10 +790,11 @@ func checkC17(t *testing.T, job *Job, res *Result) {
 	}
 	scs = append(scs, c17RacingDeploys(false), c17RacingDeploys(true))
 	scs = append(scs, c17RemoveRacingWith("deploy"), c17RemoveRacingWith("rollout-deploy"))
+	scs = append(scs, c17OverlappingRolloutDeploys(300*time.Millisecond), c17OverlappingRolloutDeploys(0))
 	b := Bounds{D: 1, S: 0}
 	if tier == "thorough" {
 		b = Bounds{D: 2, S: 0}
 	}
-	res.Rule = "configurations = command x pre-state x per-target probe scripts x in-flight sets x (deploy timeout, drain timeout, probe interval) triples; stall bound 0 so that elapsed virtual time is exact; oracle: return time EQUAL to a reference simulator (probe ticker, first 2xx, remaining in-flight time), stated upper bounds, zero probes to removed/replaced/rejected targets in a 4-interval settle window, live targets keep being probed; two deploys of different services racing for one host: exactly one is rejected, in time, and its targets are not probed afterwards"
+	res.Rule = "configurations = command x pre-state x per-target probe scripts x in-flight sets x (deploy timeout, drain timeout, probe interval) triples; stall bound 0 so that elapsed virtual time is exact; oracle: return time EQUAL to a reference simulator (probe ticker, first 2xx, remaining in-flight time), stated upper bounds, zero probes to removed/replaced/rejected targets in a 4-interval settle window, live targets keep being probed; two deploys of different services racing for one host: exactly one is rejected, in time, and its targets are not probed afterwards; two rollout deploys of one service overlapping: one target replaces the other and only it is probed afterwards; two deployed targets each with a request in flight when drained"
 	runS(t, job, res, "C17", withReversed(scs), b, 6000)
 }
